@@ -30,6 +30,9 @@ pub(crate) struct Parser<'tokens> {
     errors: Vec<SyntaxError>,
     expected_syntax: Option<ExpectedSyntax>,
     expected_syntax_tracking_state: Rc<Cell<ExpectedSyntaxTrackingState>>,
+    /// verification hook: the `token_idx` at every `bump`
+    #[cfg(capy_verif)]
+    pub(crate) bump_log: Vec<usize>,
 }
 
 impl<'tokens> Parser<'tokens> {
@@ -44,7 +47,20 @@ impl<'tokens> Parser<'tokens> {
             expected_syntax_tracking_state: Rc::new(Cell::new(
                 ExpectedSyntaxTrackingState::Unnamed,
             )),
+            #[cfg(capy_verif)]
+            bump_log: Vec::new(),
         }
+    }
+
+    /// verification hook: like `parse`, but also returns the bump log and the final `token_idx`
+    #[cfg(capy_verif)]
+    pub(crate) fn parse_traced(
+        mut self,
+        grammar: impl Fn(&mut Self),
+    ) -> (Vec<Event>, Vec<SyntaxError>, Vec<usize>, usize) {
+        grammar(&mut self);
+        let events = self.events.iter().map(|e| e.expect("unfinished marker")).collect();
+        (events, self.errors, self.bump_log, self.token_idx)
     }
 
     pub(crate) fn parse(mut self, grammar: impl Fn(&mut Self)) -> (Vec<Event>, Vec<SyntaxError>) {
@@ -269,6 +285,8 @@ impl<'tokens> Parser<'tokens> {
     }
 
     pub(crate) fn bump(&mut self) {
+        #[cfg(capy_verif)]
+        self.bump_log.push(self.token_idx);
         self.clear_expected_syntaxes();
         self.events.push(Some(Event::AddToken));
         self.token_idx += 1;
